@@ -849,7 +849,10 @@ fn gen_message(rng: &mut Rng, allow_sub: bool) -> Vec<u8> {
 			(0..n).map(|_| rng.below(256) as u8).collect()
 		}
 		17 => {
-			let mut b = gen_request(rng, allow_sub).into_bytes();
+			// never a subscription call: a byte-damaged message is outside the text model, and it must not be
+			// able to move connection state (the subscription-id counter) that the model then does not see
+			let _ = allow_sub;
+			let mut b = gen_request(rng, false).into_bytes();
 			let i = rng.below(b.len() as u64) as usize;
 			b[i] = *rng.pick(&[0xff, 0xc0, 0x80, 0xed]);
 			b
